@@ -28,7 +28,8 @@ INFO = {
     "stubs": [],
     "assumptions": ["step/iter: pre-state satisfies RI (shown reachable-only and established by init in 'reach', "
                     "shown inductive in 'step')",
-                    "the mode of a freshly initialised buffer is not fixed by the property; any is accepted"],
+                    "hist: the instance object holds arbitrary field values before init(); a buffer whose history contains no "
+                    "override-mode change drops on full (the property names override mode as the result of a mode change)"],
 }
 
 
